@@ -41,10 +41,6 @@ def printer(num_rows=10, last_rows=None, fields=None, resources=None,
     def func(rows):
         spec = rows.res
 
-        if not ResourceMatcher(resources, spec.descriptor).match(spec.name):
-            yield from rows
-            return
-
         header_print(spec.name, kwargs)
 
         schema_fields = spec.schema.fields
@@ -85,4 +81,14 @@ def printer(num_rows=10, last_rows=None, fields=None, resources=None,
 
         table_print(tabulate(toprint, headers=headers, **kwargs), kwargs)
 
-    return func
+    def step(package):
+        # the selector is resolved against the package (an index needs the list of resources)
+        matcher = ResourceMatcher(resources, package.pkg)
+        yield package.pkg
+        for rows in package:
+            if matcher.match(rows.res.name):
+                yield func(rows)
+            else:
+                yield rows
+
+    return step
